@@ -173,7 +173,7 @@ impl<'a> Analysis<'a> {
     /// a message larger than all data the case ever wrote can only contain bytes nobody wrote
     pub fn oversize(&self) -> Result<(), V> {
         if let Some((side, len)) = self.run.oversize {
-            return Err(("c02-more-bytes-on-the-wire-than-written".into(), format!("side {side} put a single message of {len} bytes on the wire; all applications of this case together wrote, relayed and sent less than {} bytes", crate::engine::MAX_SIM_MESSAGE)));
+            return Err(("c02-more-bytes-on-the-wire-than-written".into(), format!("side {side} put a single message of {len} bytes on the wire; all applications of this case together wrote, relayed and sent at least {} bytes less than that", crate::engine::MAX_SIM_MESSAGE)));
         }
         Ok(())
     }
